@@ -52,3 +52,43 @@ Example convolve_src_linear_nonvacuous :
   | _, _, _ => False
   end.
 Proof. vm_compute. repeat split; discriminate. Qed.
+
+(* ------------------------------------------------------------------ linear in the KERNEL, every mode
+   The padding depends on the kernel through its length only, so for EVERY mode (any np.pad function,
+   'extrapolate' with any windows) the call on a*k1 + b*k2 fails exactly when the calls on k1 and k2 fail
+   (same error) and otherwise returns a*out1 + b*out2. *)
+Lemma conv_full_lin_kernel (a b : Q) (u k1 k2 k : vec) n :
+  vlen k1 = vlen k -> vlen k2 = vlen k ->
+  (forall i, vget k i == a * vget k1 i + b * vget k2 i)%Q ->
+  (conv_full u k n == a * conv_full u k1 n + b * conv_full u k2 n)%Q.
+Proof.
+  intros L1 L2 H. unfold conv_full. rewrite L1, L2.
+  rewrite <- !sumQ_scale, <- sumQ_add. apply sumQ_ext. intros j _.
+  destruct ((0 <=? n - j) && (n - j <? vlen u)); [rewrite H; ring | ring].
+Qed.
+
+Theorem convolve_kernel_linear (m : mode) (y k1 k2 : vec) (a b : Q) :
+  vlen k1 = vlen k2 ->
+  match padded_convolve y k1 m, padded_convolve y k2 m, padded_convolve y (vlin a b k1 k2) m with
+  | Ok o1, Ok o2, Ok o =>
+      vlen o = vlen o1 /\ vlen o = vlen o2 /\
+      forall i, (vget o i == a * vget o1 i + b * vget o2 i)%Q
+  | Err e1, Err e2, Err e => e1 = e /\ e2 = e
+  | _, _, _ => False
+  end.
+Proof.
+  intros L. unfold padded_convolve. cbn [vlen vlin]. rewrite <- L.
+  destruct (pad_edges y (conv_padding (vlen y) (vlen k1)) m) as [yp|e]; [|split; reflexivity].
+  unfold vslice, conv_same; cbn [vlen vget]. repeat split.
+  intros i. rewrite <- L. apply conv_full_lin_kernel; cbn [vlen vget]; auto. intros; reflexivity.
+Qed.
+
+Example convolve_kernel_linear_nonvacuous :
+  let y := of_zlist [1; 4; 9; 16; 25; 36] in
+  let k1 := of_zlist [1; 2; 1] in let k2 := of_zlist [0; 1; -1] in
+  match padded_convolve y k1 (Extrapolate (Some [3])), padded_convolve y k2 (Extrapolate (Some [3])),
+        padded_convolve y (vlin 2 5 k1 k2) (Extrapolate (Some [3])) with
+  | Ok o1, Ok o2, Ok o => vlen o = 6 /\ (vget o 0 == 2 * vget o1 0 + 5 * vget o2 0)%Q /\ ~ (vget o 0 == 0)%Q
+  | _, _, _ => False
+  end.
+Proof. vm_compute. repeat split; discriminate. Qed.
